@@ -513,6 +513,91 @@ def concurrent_part(ctx: Ctx, drv: LeanDriver) -> None:
     ctx.notes["concurrent"] = {**stats, "schedules_per_scenario": per_scen, "preemption_bound": bound}
 
 
+def big_batches(ctx: Ctx) -> None:
+    """route_invocations with batches of round and off-by-one sizes (whatever chunking an implementation uses internally):
+    every routed id is deliverable exactly once, in order, behind what was already waiting"""
+    sizes = [100, 128, 255, 256, 499, 500, 501, 512, 999, 1000, 1001, 1024] if ctx.quick else \
+        [64, 100, 128, 200, 250, 255, 256, 257, 499, 500, 501, 512, 750, 999, 1000, 1001, 1024, 1500, 2000, 2048, 4096, 5000]
+    for kind in ("mem", "sqlite"):
+        app = make_app(kind, ctx.tmp, app_id=f"c08big{kind}")
+        b = app.broker
+        for n in sizes:
+            b.purge()
+            b.route_invocation("waiting-first")
+            ids = [f"m{j % max(n - 3, 1)}" if j % 97 == 0 else f"i{j}" for j in range(n)]     # a few repeated ids
+            b.route_invocations(list(ids))
+            cnt = b.count_invocations()
+            got = []
+            while (x := b.retrieve_invocation()) is not None and len(got) <= 2 * n + 5:
+                got.append(x)
+            ctx.count()
+            ctx.distinct((kind, "big-batch", n))
+            if cnt != n + 1 or got != ["waiting-first"] + ids:
+                extra = len(got) - (n + 1)
+                ctx.report(f"{kind}:batch-of-{'round' if n % 50 == 0 or n & (n - 1) == 0 else 'n'}-size",
+                           f"[{kind}] route_invocations of {n} ids behind one waiting message: count_invocations() = {cnt} (expected {n + 1}), {len(got)} messages delivered "
+                           f"({'+' if extra >= 0 else ''}{extra}), order {'kept' if got[: n + 1] == ['waiting-first'] + ids else 'NOT kept'}",
+                           {"kind": "big-batch", "backend": kind, "size": n})
+
+
+def interrupted_operations(ctx: Ctx) -> None:
+    """a KeyboardInterrupt / SystemExit (what the runners' SIGTERM and SIGINT handlers raise in the main thread) lands right
+    after the k-th SQL statement of a broker operation, for every k: the call does not return, so it must not have happened -
+    an interrupted retrieve leaves its message in the queue, an interrupted route adds nothing"""
+    from pynenc.util.sqlite_utils import SQLiteConnection
+
+    app = make_app("sqlite", ctx.tmp, app_id="c08intr")
+    b = app.broker
+    real_execute = SQLiteConnection.execute
+    state = {"k": -1, "n": 0, "exc": KeyboardInterrupt}
+
+    def execute(conn, sql, parameters=(), /):  # type: ignore[no-untyped-def]
+        r = real_execute(conn, sql, parameters)
+        state["n"] += 1
+        if state["n"] == state["k"]:
+            raise state["exc"]("signal")
+        return r
+
+    def contents() -> list[str]:
+        out = []
+        while (x := b.retrieve_invocation()) is not None:
+            out.append(x)
+        b.route_invocations(list(out))
+        return out
+
+    SQLiteConnection.execute = execute  # type: ignore[method-assign]
+    try:
+        for opname, op in (("retrieve_invocation", lambda: b.retrieve_invocation()), ("route_invocation", lambda: b.route_invocation("new")),
+                           ("route_invocations", lambda: b.route_invocations(["n1", "n2", "n3"])), ("count_invocations", lambda: b.count_invocations())):
+            for exc in (KeyboardInterrupt, SystemExit):
+                for k in range(1, 12):
+                    state["k"] = -1
+                    b.purge()
+                    b.route_invocations(["a", "b", "c"])
+                    state.update(k=k, n=0, exc=exc)
+                    raised = False
+                    try:
+                        op()
+                    except BaseException as e:  # noqa: BLE001
+                        raised = isinstance(e, exc)
+                    nstat = state["n"]
+                    state["k"] = -1
+                    after = contents()
+                    ctx.count()
+                    if not raised:
+                        break           # the operation has fewer than k statements
+                    ctx.distinct(("interrupt", opname, exc.__name__, k))
+                    # a batch is a sequence of single routes: an interrupted batch has routed a prefix of it, each id once
+                    ok = after == ["a", "b", "c"] or (opname == "route_invocations" and after in (["a", "b", "c", "n1"], ["a", "b", "c", "n1", "n2"], ["a", "b", "c", "n1", "n2", "n3"]))
+                    if not ok:
+                        ctx.report(f"sqlite:interrupted-{opname}",
+                                   f"[sqlite] {exc.__name__} raised right after SQL statement {k} of {opname}() (the call did not return): the queue went from ['a','b','c'] to {after} - "
+                                   f"{'a message was consumed without being delivered' if len(after) < 3 else 'messages appeared although the call failed'}",
+                                   {"kind": "interrupt", "backend": "sqlite", "operation": opname, "exception": exc.__name__, "after_statement": k, "statements_seen": nstat})
+    finally:
+        SQLiteConnection.execute = real_execute  # type: ignore[method-assign]
+
+
 def _run_keep(c: Conc, init, progs, chooser):
     run, hist, remaining = c.run(init, progs, chooser)
     run._c08 = (hist, remaining)  # type: ignore[attr-defined]
@@ -551,6 +636,8 @@ def run(ctx: Ctx) -> None:
         run_sequences(ctx, drv, "mem", mem, rnd, "random")
         run_sequences(ctx, drv, "sqlite", sq, rnd, "random")
         ctx.sample({"kind": "sequential", "ops": [list(o) for o in rnd[0][:10]]})
+        big_batches(ctx)
+        interrupted_operations(ctx)
         concurrent_part(ctx, drv)
         ctx.sample({"kind": "concurrent", "scenario": SCENARIOS_2[0][0], "init": SCENARIOS_2[0][1], "programs": SCENARIOS_2[0][2]})
     finally:
